@@ -396,6 +396,8 @@ type TermInvoke struct {
 // execution.
 func NewInvoke(invokee value.Value, args []value.Value, normalRetTarget, exceptionRetTarget *Block) *TermInvoke {
 	term := &TermInvoke{Invokee: invokee, Args: args, NormalRetTarget: normalRetTarget, ExceptionRetTarget: exceptionRetTarget}
+	// The call is made in the address space of the invokee.
+	term.AddrSpace = calleeAddrSpace(invokee)
 	// Compute type.
 	term.Type()
 	return term
@@ -564,6 +566,8 @@ func NewCallBr(callee value.Value, args []value.Value, normalRetTarget *Block, o
 		otherRets = append(otherRets, otherRetTarget)
 	}
 	term := &TermCallBr{Callee: callee, Args: args, NormalRetTarget: normalRetTarget, OtherRetTargets: otherRets}
+	// The call is made in the address space of the callee.
+	term.AddrSpace = calleeAddrSpace(callee)
 	// Compute type.
 	term.Type()
 	return term
